@@ -4,7 +4,10 @@ sys.monitoring (Python 3.12) LINE events are enabled only on the code objects of
 cardutil.mciipm; while a budget is active the callback counts executed lines and raises StepBudgetExceeded once the
 count passes the limit. A count is a function of the input and the code, not of the machine's speed."""
 import contextlib
+import os
+import signal
 import sys
+import threading
 import types
 
 from vlib.repo import HarnessError
@@ -12,6 +15,18 @@ from vlib.repo import HarnessError
 
 class StepBudgetExceeded(BaseException):
     """BaseException on purpose: no 'except Exception' in the code under test or in a harness may swallow it."""
+
+
+class WallClockExceeded(BaseException):
+    """Second line of defence for loops that run in C code (the DE43 regular expression): a generous wall-clock limit.
+    It is never reported on its own: the caller confirms it by re-running the same input alone in a fresh process."""
+
+
+WALL_LIMIT = float(os.environ.get('VERIF_WALL_LIMIT') or 10.0)
+
+
+def _on_alarm(signum, frame):
+    raise WallClockExceeded('wall clock')
 
 
 _state = {'n': 0, 'limit': 0, 'installed': False, 'tool': None}
@@ -78,14 +93,21 @@ def install():
 
 
 @contextlib.contextmanager
-def budget(limit):
+def budget(limit, wall=None):
     install()
     _state['n'] = 0
     _state['limit'] = limit
+    timed = threading.current_thread() is threading.main_thread()
+    if timed:
+        old = signal.signal(signal.SIGALRM, _on_alarm)
+        signal.setitimer(signal.ITIMER_REAL, wall or WALL_LIMIT)
     try:
         yield _state
     finally:
         _state['limit'] = 0
+        if timed:
+            signal.setitimer(signal.ITIMER_REAL, 0)
+            signal.signal(signal.SIGALRM, old)
 
 
 def limit_for(nbytes):
